@@ -17,7 +17,8 @@ RULE = ('Markov-structured micro trajectories (2..7 microstates quick, ..8 thoro
         'refusal; thorough adds all surjective lumpings for n <= 5 on fixed chains. Compared: T_A vs the '
         'exact rational Hummer-Szabo matrix (1e-8), labels, refusal; on the implementation output rows '
         'sum to one (1e-10), aggregated equilibrium stationary (1e-8), non-negativity for positive=True. '
-        'Non-trivial: >= 3 microstates and a non-identity lumping.')
+        'Non-trivial: >= 3 microstates and a non-identity lumping.'
+        ' Added classes: bad lumpings of driven ring walks (raw projection with negative and > 1 entries in one row), irreducible periodic micro chains (must be refused), the same lumped object estimated at other lag times first, arrays handed out by the object overwritten before the estimate.')
 TRUSTED = ['LAPACK inv / eig inside the implementation (compared within 1e-8)',
            'invertibility of the fundamental matrices is certified per case (exact K*Z = I check), not proved']
 ASSUMPTIONS = ['micro model ergodic away from the 1e-8 threshold (threshold-free cases only)']
